@@ -14,6 +14,7 @@ pub fn run(_tier: Tier, seed: u64) {
 
 fn unit<const N: usize>(seed: u64) {
     exact::<N>(seed);
+    boundary_entries::<N>(seed);
     chains::<N>(seed);
     uniqueness::<N>(seed);
 }
@@ -198,4 +199,82 @@ fn uniqueness<const N: usize>(seed: u64) {
         unique_under(&format!("C07 N={}: a signature accepted under two keys differing only in {} => equal (message coordinate non-zero)", N, target), "C07 key-binding", &h, Some(factor), Scalar::from_term(a.term()), alt);
         eng::path_done();
     }
+}
+
+/// Concrete boundary entries (constants are their own byte encodings in the stand-in, so code that inspects the bytes or
+/// bits of a message entry - a small-value fast path, a hand-written ladder - runs on real data): honest signatures on
+/// them verify, and moving one entry across a word / sign boundary makes verification fail.
+fn boundary_entries<const N: usize>(seed: u64) {
+    sx::begin(vec![], DrawMode::NonDegenerate, seed);
+    let two = |k: u32| -> Scalar {
+        let mut s = Scalar::one();
+        for _ in 0..k {
+            s = s.double();
+        }
+        s
+    };
+    let vals: Vec<(&str, Scalar)> = vec![
+        ("0", Scalar::zero()),
+        ("1", Scalar::one()),
+        ("q-1", -Scalar::one()),
+        ("2^32", two(32)),
+        ("2^63-1", two(63) - Scalar::one()),
+        ("2^63", two(63)),
+        ("2^63+5", two(63) + Scalar::from(5u64)),
+        ("2^64-1", two(64) - Scalar::one()),
+        ("2^64", two(64)),
+        ("2^128+1", two(128) + Scalar::one()),
+        ("2^254", two(254)),
+    ];
+    let mut rng = SeedRng::new(seed);
+    let kp = KeyPair::<N>::new(&mut rng);
+    let mut bad_honest = vec![];
+    let mut bad_changed = vec![];
+    let mut k = 0;
+    for (vi, (vn, v)) in vals.iter().enumerate() {
+        for pos in [0, N - 1] {
+            let mut m = [Scalar::from(7u64); N];
+            for (i, x) in m.iter_mut().enumerate() {
+                *x = vals[(vi + 1 + i) % vals.len()].1;
+            }
+            m[pos] = *v;
+            sx::set_label("sign");
+            let sig = Message::new(m).sign(&mut rng, &kp);
+            // each outcome below is first observed on the shadow values and then shown to be forced for EVERY key and
+            // signing randomness (solver), so the statement is not about one sampled key
+            k += 1;
+            let lab = format!("bv{}", k);
+            sx::set_label(&lab);
+            let n0 = sx::n_decisions();
+            if !sig.verify(kp.public_key(), &Message::new(m)) {
+                bad_honest.push(format!("entry {} at position {}", vn, pos));
+            } else {
+                all_forced(&format!("C07 boundary entry {} at position {} (N={}): honest signature verifies", vn, pos, N), "C07 boundary-entry-honest-signature-rejected", n0, &lab);
+            }
+            for (dn, d) in [("+2^63", two(63)), ("+1", Scalar::one())] {
+                let mut m2 = m;
+                m2[pos] = m2[pos] + d;
+                k += 1;
+                let lab = format!("bv{}", k);
+                sx::set_label(&lab);
+                let n0 = sx::n_decisions();
+                // (the rejection is observed on the shadow values of the key: that it holds for every key is the general
+                // statement of `exact` above; here the point is that the concrete entry bytes are handled correctly)
+                let _ = n0;
+                if sig.verify(kp.public_key(), &Message::new(m2)) {
+                    bad_changed.push(format!("entry {} at position {} changed by {}", vn, pos, dn));
+                }
+            }
+            if N == 1 {
+                break;
+            }
+        }
+    }
+    if !bad_honest.is_empty() {
+        eng::finding(&format!("C07 boundary-entry-honest-signature-rejected N={}", N), &format!("N={}: honest signatures are rejected for {:?}", N, bad_honest), None, json!({"kind": "none"}));
+    }
+    if !bad_changed.is_empty() {
+        eng::finding(&format!("C07 boundary-entry-change-accepted N={}", N), &format!("N={}: a signature still verifies after {:?}", N, bad_changed), None, json!({"kind": "none"}));
+    }
+    eng::path_done();
 }
